@@ -428,6 +428,43 @@ func (in *Interp) implied(cond *sym.Term) bool {
 	return n == 1
 }
 
+// singleton returns v when the path condition forces x == v (recorded for replay), else nil.
+func (in *Interp) singleton(x *sym.Term) *big.Int {
+	if x.IsConst() {
+		return x.I
+	}
+	if in.pos < len(in.prefix) {
+		d := in.prefix[in.pos]
+		in.pos++
+		in.trace = append(in.trace, d)
+		if d.Kind != 5 {
+			panic(fmt.Sprintf("decision kind mismatch at %d: want singleton got %d", in.pos-1, d.Kind))
+		}
+		if d.Val != nil {
+			in.assume(in.B.Eq(x, in.B.Int(d.Val)))
+		}
+		return d.Val
+	}
+	in.pos++
+	var res *big.Int
+	probe := in.B.Var("probe!s", sym.SInt, nil, nil)
+	if in.checkPC(in.pc, in.B.Eq(probe, x)) == sym.Sat {
+		m := in.MS.GetValues([]*sym.Term{probe})
+		if vs, ok := m["probe!s"]; ok {
+			if v, ok := new(big.Int).SetString(vs, 10); ok {
+				if in.check(in.B.Not(in.B.Eq(x, in.B.Int(v)))) == sym.Unsat {
+					res = v
+				}
+			}
+		}
+	}
+	in.trace = append(in.trace, decision{Kind: 5, Val: res})
+	if res != nil {
+		in.assume(in.B.Eq(x, in.B.Int(res)))
+	}
+	return res
+}
+
 // wrap reduces x to the range of a Go integer type. When the static interval of x does
 // not already fit, the solver is asked whether the path condition keeps x in range; if so
 // the (expensive) modulo is avoided and x is renamed to a variable with the tight interval.
@@ -454,6 +491,10 @@ func (in *Interp) wrap(x *sym.Term, signed bool, bits int) *sym.Term {
 	inr := B.And(B.Le(B.Int(lo), x), B.Le(x, B.Int(hi)))
 	if !in.implied(inr) {
 		return in.B.Wrap(x, signed, bits)
+	}
+	// often the value does not depend on the symbolic inputs at all
+	if v := in.singleton(x); v != nil {
+		return B.Int(v)
 	}
 	nlo, nhi := lo, hi
 	if x.Lo != nil && x.Lo.Cmp(nlo) > 0 {
@@ -734,6 +775,18 @@ func (in *Interp) report(kind, site, class, msg string, wantModel bool) {
 			f.Observe = in.evalTerms(in.obsTerms, m)
 			for k, v := range in.observe {
 				f.Observe[k] = v
+			}
+			for k, v := range in.extra {
+				if sn, ok := v.(*fsSnapshot); ok && strings.HasPrefix(k, "fsimg:") {
+					m["fsimage:"+k[6:]] = in.imageJSON(sn, m)
+				}
+			}
+			if in.fs != nil && len(in.fs.log) > 0 {
+				lg := in.fs.log
+				if len(lg) > 80 {
+					lg = lg[len(lg)-80:]
+				}
+				f.Observe["fs_ops"] = strings.Join(lg, " | ")
 			}
 			if kind == "assert" && in.Cfg.CexSamples > 0 {
 				f.Alt = in.altModels(in.Cfg.CexSamples)
